@@ -305,6 +305,27 @@ Definition spec_heads_range (g : graph) (roots heads : list nat) (flt : nat -> b
   heads_of g (List.filter (fun x => anc_any_t t heads x && negb (anc_any_t t roots x) && flt x)
                           (all_pos_desc g)).
 
+Definition in_range (g : graph) (l : list nat) : bool :=
+  forallb (fun x => (x <? length g)%nat) l.
+
+(** a restricted parent range: the answer is checked against the (unique-solution)
+    characterisation of Proofs/C18.v [rsel], evaluated on the answer itself *)
+Definition unw_b (t : list N) (rs r : list nat) (x : nat) : bool :=
+  anc_any_t t rs x || existsb (fun f => negb (f =? x)%nat && ancb_t t x f) r.
+Definition rreach_step (g : graph) (t : list N) (rs r : list nat) (flt : nat -> bool) (lo hi : nat)
+    (acc : list nat) (y : nat) : list nat :=
+  if memn y acc && negb (unw_b t rs r y) && negb (flt y)
+  then slice_range lo hi (parents g y) ++ acc else acc.
+Definition rreach_set (g : graph) (t : list N) (rs hs r : list nat) (flt : nat -> bool) (lo hi : nat)
+    : list nat :=
+  fold_left (rreach_step g t rs r flt lo hi) (all_pos_desc g) hs.
+Definition rsel_ok (g : graph) (rs hs : list nat) (flt : nat -> bool) (lo hi : nat) (r : list nat) : bool :=
+  let t := ancsets g in
+  let S := rreach_set g t rs hs r flt lo hi in
+  forallb (fun x => Bool.eqb (memn x r) (memn x S && negb (unw_b t rs r x) && flt x))
+          (all_pos_desc g) &&
+  in_range g r && in_range g hs.
+
 (** ** correspondence case *)
 Inductive query :=
 | QAnc (a d : nat) (res : bool)               (* Index::is_ancestor *)
@@ -342,8 +363,6 @@ Record case := mk_case {
 }.
 
 Definition lnat_eqb : list nat -> list nat -> bool := list_eqb Nat.eqb.
-Definition in_range (g : graph) (l : list nat) : bool :=
-  forallb (fun x => (x <? length g)%nat) l.
 
 (** Model vs implementation. *)
 Definition query_corr (g : graph) (q : query) : bool :=
@@ -374,7 +393,11 @@ Definition query_ok (g : graph) (q : query) : bool :=
       then lnat_eqb (spec_heads_range g rs hs
                        (match fs with Some l => fun x => memn x l | None => fun _ => true end)) r
            && in_range g rs && in_range g hs
-      else true
+      else
+        (* as the engine calls it: roots de-duplicated, heads minus roots *)
+        let rs' := dedup_adj (heap_from rs) in
+        let hs' := List.filter (fun h => negb (memn h rs')) (dedup_adj (heap_from hs)) in
+        rsel_ok g rs' hs' (match fs with Some l => fun x => memn x l | None => fun _ => true end) lo hi r
   end.
 
 Definition snap_corr (s : snap) : bool := forallb (query_corr (s_graph s)) (s_queries s).
